@@ -132,6 +132,25 @@ Definition preflight_handler (rs : rules) (q : req) : option hdrs :=
        | None => None
        end.
 
+(* ---- the rule table and its reload path (loadRuleData -> CorsRuleFileLoad -> CorsRuleTable.Update) ---- *)
+Definition conf := list (bytes * rules).               (* product -> rule list; product names distinct *)
+(* CorsRuleFileLoad succeeds iff every rule of every product converts *)
+Definition conf_ok (c : conf) : bool := forallb (fun pr => rules_ok (snd pr)) c.
+Fixpoint lookup (product : bytes) (t : conf) : option rules :=
+  match t with
+  | [] => None
+  | (p, rs) :: rest => if bytes_eqb product p then Some rs else lookup product rest
+  end.
+(* CorsRuleTable.Update: the product map is REPLACED by the newly loaded one (nothing of the old table survives);
+   a failed load leaves the table as it was *)
+Definition table_load (t : conf) (c : conf) : conf := if conf_ok c then c else t.
+(* a request of a product against the current table *)
+Definition with_product (t : conf) (product : bytes) (q : req) : rules * req :=
+  match lookup product t with
+  | Some rs => (rs, mkReq (q_method q) (q_origin q) (q_acrm q) true)
+  | None => ([], mkReq (q_method q) (q_origin q) (q_acrm q) false)
+  end.
+
 (* ================= specification (written from the property text) ================= *)
 (* the rule allows this request origin *)
 Definition origin_allowed (origins : list bytes) (o : bytes) : bool :=
